@@ -104,8 +104,22 @@ def run_tlc(module, cfg_text, tmpdir, extra_modules=None, workers=1, simulate=No
     out = p.stdout.decode('utf-8', 'replace')
     res.raw = out
     errs = []
-    for line in out.split('\n'):
-        line = line.rstrip('\r')
+    # TLC wraps a long PrintT tuple over two lines:  << "TAG",\n   "...json..." >>   -> rejoin
+    out_lines = out.split('\n')
+    joined = []
+    i = 0
+    while i < len(out_lines):
+        ln = out_lines[i].rstrip('\r')
+        m2 = re.match(r'^<< "([A-Z_]+)",$', ln)
+        if m2 and i + 1 < len(out_lines):
+            nxt = out_lines[i + 1].rstrip('\r').strip()
+            if nxt.startswith('"') and nxt.endswith('" >>'):
+                joined.append('<<"%s", %s>>' % (m2.group(1), nxt[:-3].rstrip()))
+                i += 2
+                continue
+        joined.append(ln)
+        i += 1
+    for line in joined:
         if line.startswith('<<"'):
             m = _REC.match(line)
             if m:
